@@ -12,12 +12,19 @@ pub struct GenerateResult {
 
 fn generate_hex_from_segment(segment: &[u8]) -> Result<String, Error> {
     let mut records = vec![];
-    if segment.len() > 0 {
-        records.push(Record::ExtendedSegmentAddress(0x0));
+    // a data record addresses 64 KiB, every such block gets its own extended address record:
+    // segment addresses reach the first MiB, larger images need linear addresses
+    let linear = segment.len() > 0x10_0000;
+    for (block, block_data) in segment.chunks(0x1_0000).enumerate() {
+        records.push(if linear {
+            Record::ExtendedLinearAddress(block as u16)
+        } else {
+            Record::ExtendedSegmentAddress((block * 0x1000) as u16)
+        });
 
-        for (i, chunk) in segment.chunks(16).enumerate() {
+        for (i, chunk) in block_data.chunks(16).enumerate() {
             records.push(Record::Data {
-                offset: i as u16 * 16,
+                offset: (i * 16) as u16,
                 value: chunk.to_vec(),
             });
         }
